@@ -54,6 +54,7 @@ func (tx *Tx) getByHintBPTSparseIdxInMem(bucket string, key []byte) (e *Entry, e
 func (tx *Tx) getByHintBPTSparseIdxOnDisk(bucket string, key []byte) (e *Entry, err error) {
 	// Read on disk.
 	var bptSparseIdxGroup []*BPTreeRootIdx
+	verifAccess("rootidxes", false, tx.db)
 	for _, bptRootIdxPointer := range tx.db.BPTreeRootIdxes {
 		bptSparseIdxGroup = append(bptSparseIdxGroup, &BPTreeRootIdx{
 			fID:     bptRootIdxPointer.fID,
@@ -276,6 +277,7 @@ func (tx *Tx) rangeScanOnDisk(bucket string, start, end []byte) ([]*Entry, error
 	var result []*Entry
 
 	bptSparseIdxGroup := tx.db.BPTreeRootIdxes
+	verifAccess("rootidxes", true, tx.db)
 
 	SortFID(bptSparseIdxGroup, func(p, q *BPTreeRootIdx) bool {
 		return p.fID > q.fID
@@ -309,6 +311,7 @@ func (tx *Tx) prefixScanOnDisk(bucket string, prefix []byte, offsetNum int, limi
 	var off int
 
 	bptSparseIdxGroup := tx.db.BPTreeRootIdxes
+	verifAccess("rootidxes", true, tx.db)
 	SortFID(bptSparseIdxGroup, func(p, q *BPTreeRootIdx) bool {
 		return p.fID > q.fID
 	})
@@ -346,6 +349,7 @@ func (tx *Tx) prefixSearchScanOnDisk(bucket string, prefix []byte, reg string, o
 	var off int
 
 	bptSparseIdxGroup := tx.db.BPTreeRootIdxes
+	verifAccess("rootidxes", true, tx.db)
 	SortFID(bptSparseIdxGroup, func(p, q *BPTreeRootIdx) bool {
 		return p.fID > q.fID
 	})
